@@ -12,7 +12,7 @@ variable {π β : Type} {h : Hist π}
 
 theorem visit_vinv (hT : h.Topo) {pl : Plug π β} {head : Nat} {fuel : Nat} {s s' : St β}
     {acc acc' : List Nat} {c : Nat} (w : WF h s) (hacc : ∀ r ∈ acc, r < s.rp.rcs.length) (v : VInv s)
-    (hv : visit h pl head fuel (s, acc) c = .ok (s', acc')) : VInv s' := by
+    {rel : List Nat} (hv : visit h pl head fuel rel (s, acc) c = .ok (s', acc')) : VInv s' := by
   have H : VisitHyps h pl head (fun s => WF h s ∧ VInv s)
       (fun s _ acc => ∀ r ∈ acc, r < s.rp.rcs.length) (fun s s' => s.rp.rcs.length ≤ s'.rp.rcs.length)
       (fun _ => True) :=
@@ -27,7 +27,7 @@ theorem visit_vinv (hT : h.Topo) {pl : Plug π β} {head : Nat} {fuel : Nat} {s 
         exact (wf_hyps h pl head).Qcls (ds := ds) hP.1 hQ hV hc
       Vstep := fun _ _ _ => trivial
       Hfin := by
-        intro s c cm fr s' hP _ hcl hcm hQ hf
+        intro rel s c cm fr s' hP _ hcl hcm hQ hf
         obtain ⟨w', hle⟩ := finish_wf hP.1 hQ hcl hcm hf
         exact ⟨⟨w', finish_vinv hP.1 w' hP.2 hQ hf⟩, hle⟩ }
   exact (visit_ind hT H fuel s [] acc c s' acc' ⟨w, v⟩ hacc trivial hv).1.2
@@ -102,7 +102,7 @@ theorem rreach_iff_anc {st : St β} (w : WF h st) (sm : Sem h st.rp) {x r : Nat}
 theorem readBranch_par (hT : h.Topo) {pl : Plug π β} {pre : List Branch} {rp0 : Repo β} {b : Branch}
     {rp' : Repo β} {rb : RBranch β} (inv : RepoInv h pre rp0)
     (hr : readBranch h pl pre.isEmpty rp0 b = .ok (rp', rb)) : BrPar h rp'.rcs rb := by
-  obtain ⟨st, rheads, hv, he⟩ := readBranch_inv hr
+  obtain ⟨hc0, st, rheads, hhc0, hv, he⟩ := readBranch_inv hr
   have H := attr_hyps (h := h) hT pl b.head rp0
   have hP0 : (WF h (⟨rp0, Br.empty⟩ : St β) ∧ Sem h rp0) ∧ Attr h rp0 b.head ⟨rp0, Br.empty⟩ :=
     ⟨⟨inv.wf, inv.sem⟩, attr_init rp0 b.head inv.wf⟩
@@ -196,9 +196,9 @@ theorem readBranch_par (hT : h.Topo) {pl : Plug π β} {pre : List Branch} {rp0 
       · rw [← hcp']; exact (rreach_iff_anc w sm hrcp hrcq).mp hpq
 
 /-- the parent builds in the final graph -/
-theorem rgraph_par (hT : h.Topo) {pl : Plug π β} {g : Graph β} (hg : rgraph h pl = .ok g) :
+theorem rgraph_par (hT : h.Topo) {pl : Plug π β} {g : Graph β} {mt : Option Nat} (hg : rgraphNW h pl mt = .ok g) :
     ∀ rb ∈ g.all, BrPar h g.rcs rb := by
-  unfold rgraph at hg
+  unfold rgraphNW at hg
   split at hg
   · cases hg
   · rename_i rp rbs hr
